@@ -2398,7 +2398,16 @@ send_evrdat(int whither, echs_const_evstrm_t s)
 			echs_instant_detach_scale(this->ev[j].from);
 		const size_t n = dt_strf_ical(stmp, sizeof(stmp), x);
 
-		fdputc(j > this->i ? ',' : ':');
+		if (j > this->i && !((j - this->i) % 32U)) {
+			/* mind the reader's line length, start a new list */
+			fdwrite("\nRDATE", strlenof("\nRDATE"));
+			if (echs_instant_all_day_p(x)) {
+				fdwrite(";VALUE=DATE", strlenof(";VALUE=DATE"));
+			}
+			fdputc(':');
+		} else {
+			fdputc(j > this->i ? ',' : ':');
+		}
 		fdwrite(stmp, n);
 	}
 	fdputc('\n');
